@@ -120,7 +120,7 @@ class _DelayNotKnowableError(ArithmeticError):
     pass
 
 
-def _delay(when: dawgie.EVENT) -> datetime.timedelta:
+def _delay(when: dawgie.EVENT, consume: bool = True) -> datetime.timedelta:
     now = datetime.datetime.now(datetime.UTC)
     then = now
     today = now.isoweekday() - 1
@@ -128,8 +128,8 @@ def _delay(when: dawgie.EVENT) -> datetime.timedelta:
     if when.moment.boot is not None:
         if when in booted:
             raise _DelayNotKnowableError()
-
-        booted.append(when)
+        if consume:  # a view must not use up the one firing of a boot event
+            booted.append(when)
     else:
         if when.moment.day is not None:
             then = datetime.datetime(
@@ -576,7 +576,9 @@ def view_events() -> [{}]:
 
         for m in p.get('period'):
             try:
-                result[p.tag].add(round(_delay(m).total_seconds()))
+                result[p.tag].add(
+                    round(_delay(m, consume=False).total_seconds())
+                )
             except _DelayNotKnowableError:
                 result[p.tag].add(-9999)
             pass
